@@ -134,7 +134,25 @@ def model_check(module, cfg=None, workers=16, timeout=3600, extra=(), count_acti
     return res
 
 
+def _check_json(x, where):
+    if x is None or isinstance(x, float):
+        raise MachineryError('value %r cannot be read by the TLA+ JSON module (%s)' % (x, where))
+    if isinstance(x, bool):
+        return
+    if isinstance(x, int):
+        if abs(x) >= 2 ** 31:
+            raise MachineryError('integer %d does not fit a TLC integer (%s)' % (x, where))
+    elif isinstance(x, dict):
+        for k, v in x.items():
+            _check_json(v, where + '.' + str(k))
+    elif isinstance(x, (list, tuple)):
+        for v in x:
+            _check_json(v, where)
+
+
 def write_events(path, events):
+    for e in events:
+        _check_json(e, 'event %s %s' % (e.get('id'), e.get('a')))
     with open(path, 'w') as f:
         for e in events:
             f.write(json.dumps(e, separators=(',', ':')))
